@@ -95,12 +95,28 @@ fn make_variant(rng: &mut Rng, base: &Problem, st0: &DefaultSettings<f64>) -> Va
         (0..n).collect()
     };
     // --- objective scaling
-    let cscale = if rng.bool(0.4) {
+    let mut cscale = if rng.bool(0.4) {
         tags.push("objective_scaled");
-        *rng.choose(&[0.5, 2.0, 10.0, 0.01])
+        *rng.choose(&[0.5, 2.0, 10.0, 0.01, 1e6, 1e-6, 1e4])
     } else {
         1.0
     };
+    // configuration first: extreme objective scales are only combined with equilibration ON.  With
+    // equilibration off, a 1e6-fold objective turns the documented, scale-dependent infeasibility test into
+    // a false DualInfeasible on feasible problems (observed: seed 1, case 489) - the user has then handed
+    // over a badly scaled problem and disabled the mechanism meant to cope with it
+    let mut st = st0.clone();
+    if rng.bool(0.5) {
+        st.presolve_enable = !st.presolve_enable;
+        tags.push("presolve_toggled");
+    }
+    if rng.bool(0.4) {
+        st.equilibrate_enable = !st.equilibrate_enable;
+        tags.push("equilibration_toggled");
+    }
+    if !st.equilibrate_enable && !(0.005..=20.0).contains(&cscale) {
+        cscale = if cscale > 1.0 { 10.0 } else { 0.01 };
+    }
     let mut a = Dense::zeros(m, n);
     let mut apat = vec![false; m * n];
     for i in 0..m {
@@ -120,16 +136,7 @@ fn make_variant(rng: &mut Rng, base: &Problem, st0: &DefaultSettings<f64>) -> Va
     let b: Vec<f64> = (0..m).map(|i| base.b[rowmap[i]]).collect();
     let q: Vec<f64> = (0..n).map(|j| cscale * base.q[colmap[j]]).collect();
     let p = Problem { P: gen::p_to_csc(&pd, full), q, A: dense_to_csc_keep(&a, &apat), b, cones };
-    // --- configuration
-    let mut st = st0.clone();
-    if rng.bool(0.5) {
-        st.presolve_enable = !st.presolve_enable;
-        tags.push("presolve_toggled");
-    }
-    if rng.bool(0.4) {
-        st.equilibrate_enable = !st.equilibrate_enable;
-        tags.push("equilibration_toggled");
-    }
+    // --- rest of the configuration
     let methods: &[&str] = if cfg!(feature = "faer") { &["qdldl", "auto", "faer"] } else { &["qdldl", "auto"] };
     st.direct_solve_method = rng.choose(methods).to_string();
     st.max_threads = *rng.choose(&[1, 2, 8]);
@@ -142,6 +149,8 @@ struct Mapped {
     s: Vec<f64>,
     z: Vec<f64>,
     tags: Vec<&'static str>,
+    /// inf-norm of the first observed iterate (x,s,z)/tau, i.e. of the solver's initial point
+    init_norm: f64,
 }
 
 fn map_back(v: &Variant, r: &SolveResult, n: usize, m: usize) -> Option<Mapped> {
@@ -158,7 +167,8 @@ fn map_back(v: &Variant, r: &SolveResult, n: usize, m: usize) -> Option<Mapped> 
         s[v.rowmap[i]] = r.s[i];
         z[v.rowmap[i]] = r.z[i] / v.cscale;
     }
-    Some(Mapped { status: r.status, x, s, z, tags: v.tags.clone() })
+    let init_norm = r.events.first().map(|e| e.x.iter().chain(&e.s).chain(&e.z).fold(0.0f64, |m, v| if v.is_finite() { m.max(v.abs()) } else { f64::INFINITY })).unwrap_or(0.0);
+    Some(Mapped { status: r.status, x, s, z, tags: v.tags.clone(), init_norm })
 }
 
 struct Terms {
@@ -193,6 +203,24 @@ fn bits_equal(a: &SolveResult, b: &SolveResult) -> bool {
         && a.x.iter().zip(&b.x).all(|(p, q)| p.to_bits() == q.to_bits())
         && a.s.iter().zip(&b.s).all(|(p, q)| p.to_bits() == q.to_bits())
         && a.z.iter().zip(&b.z).all(|(p, q)| p.to_bits() == q.to_bits())
+}
+
+/// first differing field of two results (for diagnostics)
+fn first_difference(a: &SolveResult, b: &SolveResult) -> serde_json::Value {
+    if a.status != b.status {
+        return json!({"field": "status"});
+    }
+    if a.iterations != b.iterations {
+        return json!({"field": "iterations", "a": a.iterations, "b": b.iterations});
+    }
+    for (name, u, v) in [("x", &a.x, &b.x), ("s", &a.s, &b.s), ("z", &a.z, &b.z)] {
+        for (i, (p, q)) in u.iter().zip(v.iter()).enumerate() {
+            if p.to_bits() != q.to_bits() {
+                return json!({"field": name, "index": i, "a": problem::fj(*p), "b": problem::fj(*q), "a_bits": format!("{:016x}", p.to_bits()), "b_bits": format!("{:016x}", q.to_bits())});
+            }
+        }
+    }
+    json!({"field": "objective", "a": [problem::fj(a.obj_val), problem::fj(a.obj_val_dual)], "b": [problem::fj(b.obj_val), problem::fj(b.obj_val_dual)]})
 }
 
 fn base_problem(rng: &mut Rng, small: bool) -> (Problem, &'static str) {
@@ -274,8 +302,15 @@ fn w_variants(ctx: &mut Ctx) {
                     // a problem that is both primal and dual infeasible admits either certificate
                     ctx.bump("mixed_P_and_D_verdicts_(observation)");
                 } else {
-                    let detail: Vec<_> = runs.iter().map(|(mp, _)| json!({"status": status_name(mp.status), "tags": mp.tags})).collect();
-                    ctx.violation("verdict_classes_differ", "verdict_classes_differ", wl, case, json!({"base": base.to_json(), "family": family, "runs": detail}));
+                    let detail: Vec<_> = runs.iter().map(|(mp, _)| json!({"status": status_name(mp.status), "tags": mp.tags, "initial_point_inf_norm": problem::fj(mp.init_norm)})).collect();
+                    // mechanism: the majority class is the reference; a dissenting run whose *initial point* is
+                    // astronomically larger than the data (the initial KKT solve returned garbage) is the
+                    // recorded finding "initial_point_blowup"; any other dissent keeps the plain signature
+                    let majority = ['S', 'P', 'D'].into_iter().max_by_key(|c| classes.iter().filter(|x| *x == c).count()).unwrap();
+                    let data_scale = base.q.iter().chain(&base.b).chain(&base.A.nzval).chain(&base.P.nzval).fold(1.0f64, |m, v| m.max(v.abs()));
+                    let all_blowup = runs.iter().filter(|(mp, _)| verdict_class(mp.status) != majority).all(|(mp, _)| mp.init_norm > 1e40 * data_scale);
+                    let sig = if all_blowup { "verdict_classes_differ:initial_point_blowup" } else { "verdict_classes_differ" };
+                    ctx.violation("verdict_classes_differ", sig, wl, case, json!({"base": base.to_json(), "family": family, "runs": detail}));
                 }
             }
         }
@@ -334,6 +369,90 @@ fn w_variants(ctx: &mut Ctx) {
     }
 }
 
+/// debugging aid: the repeat workload's case, with traces
+pub fn dbg_repeat(seed: u64, case: u64) {
+    let mut rng = Rng::for_case(seed, "C05/repeat", case);
+    let (p, family) = base_problem(&mut rng, false);
+    let mut st = gen::random_settings(&mut rng, true);
+    st.time_limit = f64::INFINITY;
+    println!("family {family} cones {}", problem::cones_json(&p.cones));
+    println!("b {:?}", p.b);
+    let mut solver = problem::new_solver(&p, &st).unwrap();
+    for k in 0..3 {
+        let ev = problem::solve_observed(&mut solver).unwrap();
+        let r = problem::extract(&solver, ev);
+        println!("solve {k}: status {} iters {}", status_name(r.status), r.iterations);
+        for e in r.events.iter() {
+            println!("  it {} kind {:?} x {:?}\n     s {:?}\n     z {:?}", e.iterations, e.kind, e.x, e.s, e.z);
+        }
+        println!("  final s {:?}", r.s);
+    }
+}
+
+/// debugging aid: re-run the variants of one case and print each run's trace tail
+pub fn dbg_variants(seed: u64, case: u64, nvar: usize) {
+    let mut rng = Rng::for_case(seed, "C05/variants", case);
+    let (base, family) = base_problem(&mut rng, false);
+    let st0 = gen::default_settings();
+    println!("family {family} n {} m {} cones {}", base.n(), base.m(), problem::cones_json(&base.cones));
+    for vi in 0..nvar {
+        let v = if vi == 0 {
+            Variant { p: base.clone(), st: st0.clone(), colmap: (0..base.n()).collect(), rowmap: (0..base.m()).collect(), cscale: 1.0, tags: vec!["original"] }
+        } else {
+            make_variant(&mut rng, &base, &st0)
+        };
+        let r = problem::run(&v.p, &v.st).unwrap();
+        println!("variant {vi} tags {:?} cscale {} status {} iters {}", v.tags, v.cscale, status_name(r.status), r.iterations);
+        if verdict_class(r.status) != 'S' {
+            println!("  problem {}", v.p.to_json());
+            for e in r.events.iter() {
+                println!("  it {:3} a {:.2e} tau {:.3e} kap {:.3e} mu {:.3e} pc {:.4e} dc {:.4e} pres {:.2e} dres {:.2e} bz {:.3e} qx {:.3e} st {}", e.iterations, e.step_length, e.τ, e.κ, e.μ, e.cost_primal, e.cost_dual, e.res_primal, e.res_dual, e.dot_bz, e.dot_qx, status_name(e.status));
+            }
+            for meth in ["qdldl", "faer"] {
+                let mut stv = v.st.clone();
+                stv.direct_solve_method = meth.to_string();
+                let r2 = problem::run(&v.p, &stv).unwrap();
+                println!("  method {meth}: status {} iters {} (variant used {})", status_name(r2.status), r2.iterations, v.st.direct_solve_method);
+                for sr in [true, false] {
+                    stv.static_regularization_enable = sr;
+                    for dr in [true, false] {
+                        stv.dynamic_regularization_enable = dr;
+                        let r3 = problem::run(&v.p, &stv).unwrap();
+                        println!("     static {sr} dynamic {dr}: {} iters {} mu0 {:.3e}", status_name(r3.status), r3.iterations, r3.events[0].μ);
+                    }
+                }
+            }
+            {
+                let mut stv = v.st.clone();
+                stv.direct_solve_method = "qdldl".into();
+                stv.max_iter = 0;
+                let mut solver = clarabel::solver::DefaultSolver::new(&v.p.P, &v.p.q, &v.p.A, &v.p.b, &v.p.cones, stv);
+                use clarabel::solver::IPSolver;
+                solver.solve();
+                let snap = solver.kktsystem.verif_snapshot();
+                println!("  reg {:e} count {:?}", snap.diagonal_regularizer, snap.engine.regularize_count);
+                println!("  D {:?}", snap.engine.D);
+                println!("  dsigns {:?}", snap.dsigns);
+                println!("  perm {:?}", snap.engine.perm);
+                let k = &snap.kkt;
+                let diag: Vec<f64> = (0..k.n).map(|j| { let mut d = f64::NAN; for p in k.colptr[j]..k.colptr[j+1] { if k.rowval[p]==j { d = k.nzval[p]; } } d }).collect();
+                println!("  kkt diag {:?}", diag);
+                println!("  x {:?}", solver.variables.x);
+                std::fs::write("/tmp/kkt.json", json!({"n": k.n, "colptr": k.colptr, "rowval": k.rowval, "nzval": k.nzval, "perm": snap.engine.perm, "D": snap.engine.D, "values": snap.engine.values}).to_string()).unwrap();
+            }
+            if false {
+                let mut stv = v.st.clone();
+                stv.verbose = true;
+                let mut solver = clarabel::solver::DefaultSolver::new(&v.p.P, &v.p.q, &v.p.A, &v.p.b, &v.p.cones, stv);
+                use clarabel::solver::IPSolver;
+                solver.solve();
+            }
+            let nz = r.z.iter().fold(0.0f64, |m, x| m.max(x.abs()));
+            println!("  |z|inf {nz:.3e} |x|inf {:.3e}", r.x.iter().fold(0.0f64, |m, x| m.max(x.abs())));
+        }
+    }
+}
+
 /// identical calls: same solver solved twice / three times, and two fresh solvers
 fn w_repeat(ctx: &mut Ctx) {
     let wl = "repeat";
@@ -370,7 +489,7 @@ fn w_repeat(ctx: &mut Ctx) {
         for k in 1..results.len() {
             if !bits_equal(&results[0], &results[k]) {
                 let which = if k == results.len() - 1 && results.len() == 4 { "fresh_solver_vs_first_solve" } else { "resolve_on_same_solver" };
-                ctx.violation("not_bit_reproducible", &format!("not_bit_reproducible:{which}"), wl, case, json!({"problem": p.to_json(), "settings": problem::settings_json(&st), "which": which, "k": k,
+                ctx.violation("not_bit_reproducible", &format!("not_bit_reproducible:{which}"), wl, case, json!({"problem": p.to_json(), "settings": problem::settings_json(&st), "which": which, "k": k, "first_difference": first_difference(&results[0], &results[k]),
                     "first": results[0].summary_json(), "other": results[k].summary_json()}));
                 break;
             }
